@@ -131,6 +131,31 @@ def rows_of(pts):
     return [[p[0] for p in pts], [p[1] for p in pts]]
 
 
+def judge_boxes(c, op, cfg, raw):
+    """bbox_intersect on exact data: DISJOINT iff the closed boxes share no point, TANGENT iff they touch without interior overlap"""
+    if "exc" in raw:
+        return "raised %s: %s" % (raw["exc"], raw.get("msg"))
+    res = dec_res(raw["ok"])
+    (l1, r1, b1, t1) = (min(c["n1"][0]), max(c["n1"][0]), min(c["n1"][1]), max(c["n1"][1]))
+    (l2, r2, b2, t2) = (min(c["n2"][0]), max(c["n2"][0]), min(c["n2"][1]), max(c["n2"][1]))
+    if r2 < l1 or r1 < l2 or t2 < b1 or t1 < b2:
+        want = "DISJOINT"
+    elif r2 == l1 or r1 == l2 or t2 == b1 or t1 == b2:
+        want = "TANGENT"
+    else:
+        want = "INTERSECTION"
+    got = res[1] if isinstance(res, tuple) and len(res) == 2 and res[0] == "enum" else res
+    return None if got == want else "bbox_intersect = %s, the closed boxes are %s" % (got, want)
+
+
+def judge_contains(c, op, cfg, raw):
+    if "exc" in raw:
+        return "raised %s: %s" % (raw["exc"], raw.get("msg"))
+    res = dec_res(raw["ok"])
+    want = all(min(r) <= x <= max(r) for r, x in zip(c["n1"], c["p"]))
+    return None if res is want else "contains_nd = %r, the point is %s the closed box" % (res, "in" if want else "outside")
+
+
 def judge_seg(c, op, cfg, raw):
     """segment_intersection on exact data: fails exactly on parallel segments, otherwise returns the parameters of the common point of
     the two lines (exact rational reference)"""
@@ -338,11 +363,11 @@ def run(ctx):
     correspond(ctx, "contains_nd", bx,
                [("shim.contains_nd", lambda c: [enc_arr(c["n1"]), enc_vec(list(c["p"]))], whole),
                 ("hazmat.contains_nd", lambda c: [enc_arr(c["n1"]), enc_vec(list(c["p"]))], whole)],
-               mk_coq(lambda c: "py_contains_nd %s %s" % (mat(c["n1"]), v2(c["p"]))), HEADER, "chk_val", nontrivial=nt)
+               mk_coq(lambda c: "py_contains_nd %s %s" % (mat(c["n1"]), v2(c["p"]))), HEADER, "chk_val", judge=judge_contains, nontrivial=nt)
     correspond(ctx, "bbox_intersect", bx,
                [("shim.bbox_intersect", lambda c: [enc_arr(c["n1"]), enc_arr(c["n2"])], whole),
                 ("hazmat.bbox_intersect", lambda c: [enc_arr(c["n1"]), enc_arr(c["n2"])], whole)],
-               mk_coq(lambda c: "py_bbox_intersect %s %s" % (mat(c["n1"]), mat(c["n2"]))), HEADER, "chk_val", nontrivial=nt)
+               mk_coq(lambda c: "py_bbox_intersect %s %s" % (mat(c["n1"]), mat(c["n2"]))), HEADER, "chk_val", judge=judge_boxes, nontrivial=nt)
     correspond(ctx, "bbox_line_intersect", bx,
                [("hazmat.bbox_line_intersect", lambda c: [enc_arr(c["n1"]), enc_vec(list(c["ls"])), enc_vec(list(c["le"]))], whole)],
                mk_coq(lambda c: "py_bbox_line_intersect %s %s %s" % (mat(c["n1"]), v2(c["ls"]), v2(c["le"]))),
